@@ -13,6 +13,7 @@ Record hsnap := {
   sn_cs : list (list N * Z);                (* per component: computable keys, weight *)
   sn_h2c : list (N * option nat);
   sn_idle : list N;
+  sn_count : N;                             (* State.computable, the counter has_computable tests *)
 }.
 Record orcl := {
   ol_workers : list N;
@@ -38,7 +39,8 @@ Definition to_orc (o : orcl) : orc :=
 Definition snap_ok (s : sys) (hs : hstate) (sn : hsnap) : bool :=
   bool_decide ((λ c, (c_comp c, c_weight c)) <$> h_cs hs = (λ p, (Lit.sN p.1, p.2)) <$> sn_cs sn)
   && bool_decide (h_h2c hs = mH2C (sn_h2c sn))
-  && bool_decide (idle (ctl s) = Lit.sN (sn_idle sn)).
+  && bool_decide (idle (ctl s) = Lit.sN (sn_idle sn))
+  && bool_decide (N.of_nat (size (computable (ctl s))) = sn_count sn).
 
 Definition assigns_of (ls : list label) : list (worker * task) :=
   omap (λ l, match l with LAssign w t _ => Some (w, t) | _ => None end) ls.
